@@ -17,7 +17,7 @@ pub fn meta() -> Meta {
     Meta {
         id: "C02",
         level: "exploration",
-        rule: "metamorphic relation on the real builder, enumerated completely per input family: F1 every record over {A,C,G,T,N} up to length 7 (k=5) with its reverse complement, every case mask (length<=6) and every line width; F2 the restart family L+N+R (k-mers on both sides of an N) against its reverse complement; F3 for all 30 k a repeat-free string of k+3 letters with N at every position: reverse complement, lower/alternating case, line widths 1,2,k,len-1, gzip; F4 every ordered triple from a record pool with every subset reverse-complemented and every permutation; F5 every permutation of 3 and 4 samples through build_and_merge (columns permute with the names). Non-trivial = the original input has at least one split k-mer and the transformed file differs from the original.".into(),
+        rule: "metamorphic relation on the real builder, enumerated completely per input family: F1 every record over {A,C,G,T,N} up to length 7 (k=5) with its reverse complement, every case mask (length<=6) and every line width; F2 the restart family L+N+R (k-mers on both sides of an N) against its reverse complement; F3 for all 30 k a repeat-free string of k+3 letters with N at every position: reverse complement, lower/alternating case, line widths 1,2,k,len-1, gzip; F4 every ordered triple from a record pool with every subset reverse-complemented and every permutation; F5 every permutation of 3 and 4 samples through build_and_merge (columns permute with the names), and reversed/rotated orders of 72 samples through `ska build --threads 8` (recursive parallel merge). Non-trivial = the original input has at least one split k-mer and the transformed file differs from the original.".into(),
         assumptions: vec!["a file without split k-mers may be refused; refusal is treated as the empty dictionary on both sides".into()],
         exhaustive_when_uncapped: true,
     }
@@ -304,6 +304,52 @@ pub fn run(ctx: &Ctx, rep: &mut Report) {
                             rep.violate(format!("sample permutation {p:?} k={k} rc={rc} n={n}"), "permuting input samples does not just permute the columns".into(), json!({"part":"sample-permutation","k":k,"rc":rc,"perm":p}));
                         }
                     }
+                }
+            }
+        }
+        // the same relation through the CLI with enough samples and threads for the recursive parallel merge
+        // (72 samples, --threads 8: split depth 3): reversed and rotated sample order
+        idx += 1;
+        if ctx.mine(idx) {
+            let k = 15usize;
+            let n = 72usize;
+            let g = repeat_free(8 * k, k, 0, ctx.seed + 10);
+            let dir = scratch::path("c02cli");
+            let _ = std::fs::create_dir_all(&dir);
+            for i in 0..n {
+                let mut s = g.clone();
+                let p = k + (i * 5) % (6 * k);
+                s[p] = comp(s[p]);
+                if i % 7 == 3 {
+                    s = rc_str(&s);
+                }
+                std::fs::write(format!("{dir}/m{i}.fa"), scratch::fasta(&[s])).unwrap();
+            }
+            let build = |order: &[usize], out: &str, threads: &str| -> Result<Table, String> {
+                let mut a: Vec<String> = vec!["build".into(), "-k".into(), k.to_string(), "-o".into(), out.into(), "--threads".into(), threads.into()];
+                a.extend(order.iter().map(|i| format!("m{i}.fa")));
+                let av: Vec<&str> = a.iter().map(|x| x.as_str()).collect();
+                let o = crate::cli::run(&av, &dir, None);
+                if o.code != 0 {
+                    return Err(format!("ska build exit {}", o.code));
+                }
+                crate::mirror::FileState::read(&format!("{dir}/{out}.skf")).map(|s| s.table)
+            };
+            let ident: Vec<usize> = (0..n).collect();
+            let base = build(&ident, "p0", "1");
+            for (what, order) in [("identity, 8 threads", ident.clone()), ("reversed, 8 threads", ident.iter().rev().copied().collect::<Vec<_>>()), ("rotated by 19, 8 threads", ident.iter().map(|i| (i + 19) % n).collect())] {
+                rep.evaluations += 1;
+                rep.nontrivial += 1;
+                rep.corner("sample_permutation_cli_72_samples_8_threads");
+                let got = build(&order, "p1", "8");
+                let want = base.clone().map(|t| Table {
+                    k,
+                    rc: true,
+                    names: order.iter().map(|i| t.names[*i].clone()).collect(),
+                    rows: t.rows.iter().map(|(a, r)| (a.clone(), order.iter().map(|i| r[*i]).collect())).collect(),
+                });
+                if got != want || got.is_err() {
+                    rep.violate(format!("cli sample permutation {what}"), format!("ska build of 72 samples ({what}) is not the column permutation of the single-threaded build in input order"), json!({"part": "sample-permutation-cli", "order": what}));
                 }
             }
         }
